@@ -77,6 +77,7 @@ struct Kernel {
 	std::string file_path;                                   // the credential file
 	std::map<std::string, std::string> files, dur;           // what system calls see / what survives a loss of power
 	std::vector<FileLogEntry> file_log;                      // state of the credential file after every completed file-system call
+	std::string cwd = "/srv/cjet";   // working directory of the simulated process
 	int fs_fault_at = -1; std::string fs_fault_kind; int fs_calls = 0; long fs_fault_arg = 0; bool fs_fault_fired = false;
 	int cur_change = 0;                                      // number of password changes the reference model has seen so far
 	uint64_t urandom_state = 0x1234567;
